@@ -54,6 +54,10 @@ type trsDesc struct {
 	P, S, Q, V []float64
 	Exact      bool
 }
+type trsCtorDesc struct {
+	P, S, Q, D, V []float64
+	Exact         bool
+}
 type meshDesc struct {
 	Op      int // 0 Rotate 1 Translate 2 Scale 3 ApplyTRS
 	P, S, Q []float64
@@ -311,6 +315,24 @@ func doTrs(d trsDesc) {
 	add("trs", d, nonzero(d.P, d.Q[:3], d.V) && (d.S[0] != d.S[1] || d.S[1] != d.S[2]), coq, crash, ok)
 }
 
+func doTrsCtor(d trsCtorDesc) {
+	var oP, oS, oR, oT []float64
+	crash := guard(func() {
+		v := toV(d.V)
+		oP = fromV(trs.Position(toV(d.P)).Transform(v))
+		oS = fromV(trs.Scale(toV(d.S)).Transform(v))
+		oR = fromV(trs.Rotation(toQ(d.Q)).Transform(v))
+		oT = fromV(trs.New(toV(d.P), toQ(d.Q), toV(d.S)).Translate(toV(d.D)).Transform(v))
+	})
+	coq := ""
+	ok := crash == "" && finite(flat(oP, oS, oR, oT)...)
+	if ok {
+		coq = fmt.Sprintf("CTrsCtor %s %s %s %s %s %s %s %s %s %s", tolOf(d.Exact, trsScale(flat(d.P, d.D), d.S, d.Q, d.V)),
+			qlist(d.P), qlist(d.S), qlist(d.Q), qlist(d.D), qlist(d.V), qlist(oP), qlist(oS), qlist(oR), qlist(oT))
+	}
+	add("trsctor", d, nonzero(d.P, d.S, d.Q[:3], d.D, d.V), coq, crash, ok)
+}
+
 func doMesh(d meshDesc) {
 	var out, pw [][]float64
 	rest := true
@@ -491,6 +513,10 @@ func dispatch(kind string, raw json.RawMessage) {
 		var d trsDesc
 		un(&d)
 		doTrs(d)
+	case "trsctor":
+		var d trsCtorDesc
+		un(&d)
+		doTrsCtor(d)
 	case "mesh":
 		var d meshDesc
 		un(&d)
